@@ -58,7 +58,9 @@ X_EMPTY_PAGED = "boltz.BaseStore.QueryIdsC/empty-filter-with-own-paging"
 X_DOTTED = "boltz.BaseStore.QueryIds/dotted-symbols-and-subqueries"
 X_EXT = "boltz.ExternalSymbol/filters-and-sorts-at-every-place"
 X_IDX = "boltz.indexes/reads-of-different-keys-at-every-base-path-depth"
+X_SHARED = "boltz.indexes/concurrent-readers-sharing-their-argument-slices"
 RACE_HINTS = [
+    (("FindMatching", "IteratorMatching"), X_SHARED),
     (("ExternalSymbol", "FuncSymbol"), X_EXT),
     (("setIndex", "uniqueIndex", "fkIndex", "linkCollectionImpl", "LinkedSetSymbol", "Indexer"), X_IDX),
     (("compositeEntity", "stackedCursor", "EntitySetSymbol", "entitySetSymbol", "GetSymbol"), X_DOTTED),
@@ -424,7 +426,12 @@ def main(argv):
                             dict(case=case, impl=i, input=bytes.fromhex(arg).decode("utf-8", "replace") if arg != "-" else ""))
         elif kind == "X":
             distinct.add(case)
-            if i != m:
+            if i != m and "first: argument-changed" in i:
+                # ninth strengthening (c18_s9.go): a read wrote to memory its caller owns and shares between readers
+                c.violation("C18:read-writes-caller-argument",
+                            "a read helper wrote to the argument it was given, which concurrent read transactions of the same caller share (%s rounds wrong): %s"
+                            % (i.split()[2], i.split("first: ", 1)[1][:400]), dict(case=case, impl=i))
+            elif i != m:
                 c.violation("C18:helper-wrong-under-concurrency", "%s answered wrongly when called from many goroutines: %s" % (case[2:], i), dict(case=case, impl=i))
     for r in races:
         c.violation("C18:data-race:" + r["func"], "the race detector reported a data race in %s" % r["func"],
